@@ -324,17 +324,15 @@ def render(shape) -> Rendered:
     elif "no_fn_tables" in shape:
         pass
 
-    # annotations
+    # annotations.  Aux data is unordered: the order in which entries are inserted
+    # into the tables varies with the shape (ascending / descending), because
+    # code that relies on dict insertion order being address order is wrong.
+    pending_ann = []
     for si, sec in enumerate(shape["sections"]):
         for bi_, blk in enumerate(sec["blocks"]):
             b = r.blocks[si][bi_]
             for disp, table, keykind, value in blk.get("ann", []):
-                tdef = getattr(_auxdata, table)
-                tab = tdef.get_or_insert(m)
-                if keykind == "blk":
-                    tab[gtirb.Offset(b, disp)] = value
-                else:
-                    tab[gtirb.Offset(b.byte_interval, b.offset + disp)] = value
+                pending_ann.append((b, disp, table, keykind, value))
             if blk.get("cfi"):
                 tab = _auxdata.cfi_directives.get_or_insert(m)
                 for disp, ds in blk["cfi"]:
@@ -343,6 +341,25 @@ def render(shape) -> Rendered:
                     ]
             if blk.get("align"):
                 _auxdata.alignment.get_or_insert(m)[b] = blk["align"]
+    descending = shape.get("ann_order", "auto") == "desc" or (
+        shape.get("ann_order", "auto") == "auto"
+        and sum(len(s["blocks"]) + sum(len(b["units"]) for b in s["blocks"]) for s in shape["sections"]) % 2 == 1
+    )
+    if descending:
+        pending_ann.reverse()
+    for b, disp, table, keykind, value in pending_ann:
+        tab = getattr(_auxdata, table).get_or_insert(m)
+        if keykind == "blk":
+            tab[gtirb.Offset(b, disp)] = value
+        else:
+            tab[gtirb.Offset(b.byte_interval, b.offset + disp)] = value
+    if descending and sx_sizes is not None:
+        # re-insert the expression sizes in descending order as well
+        items = list(sx_sizes.items())
+        for k, _ in items:
+            del sx_sizes[k]
+        for k, v in reversed(items):
+            sx_sizes[k] = v
     # CFG
     edges = shape.get("edges")
     if edges is None:
